@@ -225,6 +225,7 @@ class BlockNode(Node):
                     parent=stack_item.parent,
                 )
             },
+            disabled_tags=context.disabled_tags,
             carry_loop_iterations=True,
             block_scope=True,
         )
@@ -279,6 +280,7 @@ class BlockNode(Node):
                     parent=stack_item.parent,
                 )
             },
+            disabled_tags=context.disabled_tags,
             carry_loop_iterations=True,
             block_scope=True,
         )
